@@ -28,23 +28,21 @@
 (* intervals; the harness compares the Gram matrix of the linear map the   *)
 (* real code realises (labelled noise) against it.                         *)
 (***************************************************************************)
-EXTENDS Rational, FiniteSets, TLC, Json
+EXTENDS Rational, FiniteSets, TLC, Json, SplitPolys
 
 CONSTANTS LMax,     \* single-split lemma for all l, r in 1..LMax
           GridT     \* covariance table for all intervals with end points in 0..GridT
 
 (* ------------------------------- Part 1 ---------------------------------------------------- *)
 \* a linear form is a 4-tuple of rationals over atoms (W, H, vX1, (v/sqrt3) X2)
-Gram(l, r) == LET h  == l + r
-                  v2 == R(l * r, 4 * (l * l * l + r * r * r))
-              IN <<RInt(h), R(h, 12), v2, RMul(v2, R(1, 3))>>
-Dot(x, y, G) == RAdd(RAdd(RMul(RMul(x[1], y[1]), G[1]), RMul(RMul(x[2], y[2]), G[2])),
-                     RAdd(RMul(RMul(x[3], y[3]), G[3]), RMul(RMul(x[4], y[4]), G[4])))
-Forms(l, r) ==
-  LET h     == l + r
-      a     == R(l * l, h)                       \* a / v
+\* The coefficient formulas with h (the parent's length) and S (= l^3 + r^3, the denominator of v^2) as
+\* parameters: Forms / Gram below instantiate them with h = l + r, S = l^3 + r^3; ClearedLink uses them with
+\* h and S FREE to tie the polynomials of SplitPolys.tla (proved by TLAPS for all l, r) to these formulas.
+GramG(l, r, h, S) == <<RInt(h), R(h, 12), R(l * r, 4 * S), R(l * r, 12 * S)>>
+FormsG(l, r, h, S) ==
+  LET a     == R(l * l, h)                       \* a / v
       b     == R(r * r, h)                       \* b / v
-      third == R(2 * (l * l * l + r * r * r), h * h)
+      third == R(2 * S, h * h)
       fl    == R(l, h)
       fr    == R(r, h)
       sl    == R(6 * l * r, h * h)
@@ -52,6 +50,44 @@ Forms(l, r) ==
       Hl |-> <<RZero, RMul(fl, fl), RNeg(a), RInt(r)>>,
       Wr |-> <<fr, RNeg(sl), RNeg(third), RZero>>,
       Hr |-> <<RZero, RMul(fr, fr), RNeg(b), RInt(-l)>>]
+Gram(l, r) == GramG(l, r, l + r, l * l * l + r * r * r)
+Forms(l, r) == FormsG(l, r, l + r, l * l * l + r * r * r)
+Dot(x, y, G) == RAdd(RAdd(RMul(RMul(x[1], y[1]), G[1]), RMul(RMul(x[2], y[2]), G[2])),
+                     RAdd(RMul(RMul(x[3], y[3]), G[3]), RMul(RMul(x[4], y[4]), G[4])))
+\* (Dot(Forms_a, Forms_b, Gram) - target) * D  =  P - Q   with h, S free
+Link(x, y, G, tgt, D, PQ) == RMul(RSub(Dot(x, y, G), tgt), RInt(D)) = RInt(PQ)
+ClearedLinkAt(l, r, h, S) ==
+  LET F == FormsG(l, r, h, S)
+      G == GramG(l, r, h, S)
+  IN /\ Link(F.Wl, F.Wl, G, RInt(l), D_WlWl(l, r, h, S), P_WlWl(l, r, h, S) - Q_WlWl(l, r, h, S))
+     /\ Link(F.Wr, F.Wr, G, RInt(r), D_WrWr(l, r, h, S), P_WrWr(l, r, h, S) - Q_WrWr(l, r, h, S))
+     /\ Link(F.Wl, F.Wr, G, RZero, D_WlWr(l, r, h, S), P_WlWr(l, r, h, S) - Q_WlWr(l, r, h, S))
+     /\ Link(F.Hl, F.Hl, G, R(l, 12), D_HlHl(l, r, h, S), P_HlHl(l, r, h, S) - Q_HlHl(l, r, h, S))
+     /\ Link(F.Hr, F.Hr, G, R(r, 12), D_HrHr(l, r, h, S), P_HrHr(l, r, h, S) - Q_HrHr(l, r, h, S))
+     /\ Link(F.Hl, F.Hr, G, RZero, D_HlHr(l, r, h, S), P_HlHr(l, r, h, S) - Q_HlHr(l, r, h, S))
+     /\ Link(F.Wl, F.Hl, G, RZero, D_WlHl(l, r, h, S), P_WlHl(l, r, h, S) - Q_WlHl(l, r, h, S))
+     /\ Link(F.Wr, F.Hr, G, RZero, D_WrHr(l, r, h, S), P_WrHr(l, r, h, S) - Q_WrHr(l, r, h, S))
+     /\ Link(F.Wl, F.Hr, G, RZero, D_WlHr(l, r, h, S), P_WlHr(l, r, h, S) - Q_WlHr(l, r, h, S))
+     /\ Link(F.Wr, F.Hl, G, RZero, D_WrHl(l, r, h, S), P_WrHl(l, r, h, S) - Q_WrHl(l, r, h, S))
+     \* H merge of __call__, H-component: (r (r^2/h^2 + 3 l r/h^2) + l (l^2/h^2 + 3 l r/h^2)) / h = 1  <=>  P_MergeH = Q_MergeH
+     /\ RMul(RSub(RMul(R(1, h), RAdd(RMul(RInt(r), RAdd(F.Hr[2], RMul(RHalf, F.Wl[2]))),
+                                     RMul(RInt(l), RSub(F.Hl[2], RMul(RHalf, F.Wr[2]))))), ROne), RInt(h * h * h))
+          = RInt(P_MergeH(l, r, h, S) - Q_MergeH(l, r, h, S))
+     \* ... X1-component: (r (-r^2/h + S/h^2) + l (-l^2/h + S/h^2)) / h = 0 once S = l^3 + r^3, h = l + r;
+     \* with h, S free it equals (S (l + r) - h (l^3 + r^3)) / h^3
+     /\ RMul(RMul(R(1, h), RAdd(RMul(RInt(r), RAdd(F.Hr[3], RMul(RHalf, F.Wl[3]))),
+                                RMul(RInt(l), RSub(F.Hl[3], RMul(RHalf, F.Wr[3]))))), RInt(h * h * h))
+          = RInt(P_MergeX1(l, r, h, S) - h * (l * l * l + r * r * r))
+     \* child sum, W-component: l/h + r/h - 1 = (P_ChildSum - Q_ChildSum) / h
+     /\ RMul(RSub(RAdd(F.Wl[1], F.Wr[1]), ROne), RInt(h)) = RInt(P_ChildSum(l, r, h, S) - Q_ChildSum(l, r, h, S))
+\* all (l, r, h, S) on a grid of side LinkK; both sides are generally non-zero there
+ClearedLink(K) == \A l \in 1..K : \A r \in 1..K : \A h \in 1..K : \A S \in 1..K : ClearedLinkAt(l, r, h, S)
+\* a wrong polynomial must break the link (non-vacuity)
+ClearedLinkNotVacuous ==
+  LET F == FormsG(1, 2, 4, 5)
+      G == GramG(1, 2, 4, 5)
+  IN /\ RSub(Dot(F.Wl, F.Wl, G), RInt(1)) # RZero
+     /\ ~Link(F.Wl, F.Wl, G, RInt(1), D_WlWl(1, 2, 4, 5), P_WlWl(1, 2, 4, 5) - Q_WlWl(1, 2, 4, 5) + 1)
 SplitLemma(l, r) ==
   LET F == Forms(l, r)
       G == Gram(l, r)
@@ -138,6 +174,8 @@ Next == \/ phase = "lemma" /\ phase' = "stats"
         \/ phase = "table" /\ phase' = "done"
 Spec == Init /\ [][Next]_phase
 InvLemma == phase = "lemma" => (LemmaHolds /\ LemmaNotVacuous)
+CONSTANT LinkK
+InvLink == phase = "lemma" => (ClearedLink(LinkK) /\ ClearedLinkNotVacuous)
 InvStats == phase = "stats" => (SelfStats /\ ChenStats /\ LevyConsistent)
 InvTable == phase = "table" =>
    /\ PrintT("@@" \o ToJson([kind |-> "cov", rows |-> TableRows]))
